@@ -24,6 +24,7 @@
 #include "features.h"
 #include <janet.h>
 #include "gc.h"
+#include "fiber.h"
 #include "state.h"
 #include "util.h"
 #include "vector.h"
@@ -342,14 +343,19 @@ static Janet doframe(JanetStackFrame *frame) {
                 JanetSymbolMap jsm = def->symbolmap[i];
                 Janet value = janet_wrap_nil();
                 uint32_t pc = (uint32_t)(frame->pc - def->bytecode);
+                /* The symbol map comes unchecked from asm input and from images, so bound every index. */
                 if (jsm.birth_pc == UINT32_MAX) {
-                    JanetFuncEnv *env = frame->func->envs[jsm.death_pc];
-                    if (env->offset > 0) {
-                        value = env->as.fiber->data[env->offset + jsm.slot_index];
-                    } else {
-                        value = env->as.values[jsm.slot_index];
+                    if (jsm.death_pc < (uint32_t) def->environments_length) {
+                        JanetFuncEnv *env = frame->func->envs[jsm.death_pc];
+                        if (janet_env_valid(env) && jsm.slot_index < (uint32_t) env->length) {
+                            if (env->offset > 0) {
+                                value = env->as.fiber->data[env->offset + jsm.slot_index];
+                            } else {
+                                value = env->as.values[jsm.slot_index];
+                            }
+                        }
                     }
-                } else if (pc >= jsm.birth_pc && pc < jsm.death_pc) {
+                } else if (pc >= jsm.birth_pc && pc < jsm.death_pc && jsm.slot_index < (uint32_t) def->slotcount) {
                     value = stack[jsm.slot_index];
                 }
                 janet_table_put(local_bindings, janet_wrap_symbol(jsm.symbol), value);
